@@ -402,17 +402,21 @@ theorem collectMap_fuel_mono (f : List α → Outcome β) : ∀ (n : Nat) (ms : 
 
 /-! ### the two partial cases -/
 
-/-- no set at all: the iterator yields `[]` for ever — no fuel suffices -/
-theorem collect_no_sets_diverges (fuel : Nat) :
-    collect fuel (MultiSet.from ([] : List (List α))) = .diverges := by
+/-- no set at all: the iterator yields `[]` for ever — no fuel suffices (whatever is mapped over it,
+as long as that does not panic on `[]`) -/
+theorem collectMap_no_sets_diverges (f : List α → Outcome β) (y : β) (hf : f [] = .ok y)
+    (fuel : Nat) : collectMap f fuel (MultiSet.from ([] : List (List α))) = .diverges := by
   induction fuel with
   | zero => rfl
   | succ n ih =>
     have hn : next (MultiSet.from ([] : List (List α)))
         = .ok (some [], MultiSet.from ([] : List (List α))) := rfl
-    simp only [collect] at ih ⊢
     rw [collectMap, hn]
-    simp [ih]
+    simp [hf, ih]
+
+theorem collect_no_sets_diverges (fuel : Nat) :
+    collect fuel (MultiSet.from ([] : List (List α))) = .diverges :=
+  collectMap_no_sets_diverges .ok [] rfl fuel
 
 theorem pickFrom_empty (sets : List (List α)) : ∀ (k i : Nat), i + k = sets.length →
     (∃ s ∈ sets.drop i, s = []) → pickFrom sets i (List.replicate k 0) = none
@@ -435,10 +439,14 @@ theorem pickFrom_empty (sets : List (List α)) : ∀ (k i : Nat), i + k = sets.l
       simp [this, ih]
 
 /-- an empty set: `len − 1` wraps and the first `next` indexes out of bounds -/
-theorem collect_empty_set_panics (sets : List (List α)) (h : [] ∈ sets) (fuel : Nat) :
-    collect (fuel + 1) (MultiSet.from sets) = .panic "multiset/sets-index" := by
+theorem collectMap_empty_set_panics (f : List α → Outcome β) (sets : List (List α)) (h : [] ∈ sets)
+    (fuel : Nat) : collectMap f (fuel + 1) (MultiSet.from sets) = .panic "multiset/sets-index" := by
   have hp := pickFrom_empty sets sets.length 0 (by omega) ⟨[], by simpa using h, rfl⟩
-  simp [collect, collectMap, next, MultiSet.from, hp]
+  simp [collectMap, next, MultiSet.from, hp]
+
+theorem collect_empty_set_panics (sets : List (List α)) (h : [] ∈ sets) (fuel : Nat) :
+    collect (fuel + 1) (MultiSet.from sets) = .panic "multiset/sets-index" :=
+  collectMap_empty_set_panics .ok sets h fuel
 
 end iterator
 
